@@ -2,4 +2,278 @@
 
 package main
 
-func workerMain() {}
+import (
+	"bufio"
+	"encoding/hex"
+	"encoding/json"
+	"fmt"
+	"io"
+	"os"
+	"os/exec"
+	"runtime"
+	"runtime/debug"
+	"strings"
+	"sync"
+	"time"
+)
+
+// Isolation (DESIGN.md §2.4): every oracle that parses arbitrary bytes runs in worker
+// processes.  A task is (oracle name, config string, input bytes); the worker evaluates the
+// oracle's predicate on the real code under recover and a watchdog, so a panic, a hang or a
+// memory blow-up is an observed outcome of that input, not a crashed check.
+
+type Task struct {
+	Oracle string
+	Cfg    string
+	Src    []byte
+	Tag    string // generator tag (for the distribution in evidence)
+}
+
+// Outcome of one task as evaluated inside the worker.
+type Outcome struct {
+	Fails      []Failure      `json:"f,omitempty"`
+	Nontrivial bool           `json:"n,omitempty"`
+	Tags       []string       `json:"t,omitempty"` // counters to bump (branches / kinds hit)
+	Key        string         `json:"k,omitempty"` // canonical hash key for distinctness ("" = hash of input+cfg)
+	Reject     string         `json:"r,omitempty"` // generator rejection reason (not a failure)
+	Data       map[string]any `json:"d,omitempty"` // oracle-specific payload for the parent
+}
+
+type oracleFn func(src []byte, cfg string) Outcome
+
+var oracles = map[string]oracleFn{}
+
+func deadlineFor(n int) time.Duration {
+	// budget: generous constant + linear part; "time roughly proportional to the input length"
+	return 3*time.Second + time.Duration(n)*40*time.Microsecond
+}
+
+// repoFrame finds the innermost php-parser frame of the goroutine that runs the oracle.
+func repoFrameOf(stack string) string {
+	for _, g := range strings.Split(stack, "\n\n") {
+		if !strings.Contains(g, "main.runTask") {
+			continue
+		}
+		return panicSite(g)
+	}
+	return panicSite(stack)
+}
+
+func runTask(fn oracleFn, src []byte, cfg string) (out Outcome) {
+	defer func() {
+		if e := recover(); e != nil {
+			site := panicSite(string(debug.Stack()))
+			out = Outcome{Fails: []Failure{{Site: "panic:" + site, Kind: "input", Detail: "panic outside parser.Parse guard: " + fmt.Sprint(e)}}}
+		}
+	}()
+	return fn(src, cfg)
+}
+
+func workerMain() {
+	in := bufio.NewReaderSize(os.Stdin, 1<<20)
+	out := bufio.NewWriter(os.Stdout)
+	defer out.Flush()
+	var cur struct {
+		sync.Mutex
+		idx string
+	}
+	// memory watchdog
+	go func() {
+		var ms runtime.MemStats
+		for {
+			time.Sleep(100 * time.Millisecond)
+			runtime.ReadMemStats(&ms)
+			if ms.HeapAlloc > 3<<30 {
+				cur.Lock()
+				fmt.Fprintf(os.Stdout, "M %s\n", cur.idx)
+				os.Exit(4)
+			}
+		}
+	}()
+	for {
+		line, err := in.ReadString('\n')
+		line = strings.TrimRight(line, "\n")
+		if line != "" {
+			parts := strings.SplitN(line, " ", 4)
+			if len(parts) == 4 {
+				idx, name, cfg := parts[0], parts[1], parts[2]
+				src, _ := hex.DecodeString(parts[3])
+				fn := oracles[name]
+				cur.Lock()
+				cur.idx = idx
+				cur.Unlock()
+				fmt.Fprintf(out, "S %s\n", idx)
+				out.Flush()
+				done := make(chan Outcome, 1)
+				go func() { done <- runTask(fn, src, cfg) }()
+				select {
+				case o := <-done:
+					b, _ := json.Marshal(o)
+					fmt.Fprintf(out, "D %s %s\n", idx, b)
+					out.Flush()
+				case <-time.After(deadlineFor(len(src))):
+					buf := make([]byte, 1<<20)
+					n := runtime.Stack(buf, true)
+					site := repoFrameOf(string(buf[:n]))
+					fmt.Fprintf(out, "H %s %s\n", idx, site)
+					out.Flush()
+					os.Exit(3)
+				}
+			}
+		}
+		if err == io.EOF {
+			return
+		}
+		if err != nil {
+			return
+		}
+	}
+}
+
+type taskResult struct {
+	Out  Outcome
+	Kind string // done | hang | crash | oom
+	Site string
+}
+
+// runTasks evaluates all tasks on nproc worker processes; results are indexed like tasks.
+func runTasks(tasks []Task, nproc int) []taskResult {
+	res := make([]taskResult, len(tasks))
+	if len(tasks) == 0 {
+		return res
+	}
+	if nproc < 1 {
+		nproc = 1
+	}
+	var mu sync.Mutex
+	next := 0
+	take := func(k int) []int {
+		mu.Lock()
+		defer mu.Unlock()
+		var ids []int
+		for len(ids) < k && next < len(tasks) {
+			ids = append(ids, next)
+			next++
+		}
+		return ids
+	}
+	self, _ := os.Executable()
+	var wg sync.WaitGroup
+	for w := 0; w < nproc; w++ {
+		wg.Add(1)
+		go func() {
+			defer wg.Done()
+			for {
+				ids := take(256)
+				if len(ids) == 0 {
+					return
+				}
+				pending := ids
+				for len(pending) > 0 {
+					pending = runBatch(self, tasks, pending, res)
+				}
+			}
+		}()
+	}
+	wg.Wait()
+	return res
+}
+
+// runBatch runs the given task indices in one worker process; returns the indices that remain
+// (those after an input that killed the worker).
+func runBatch(self string, tasks []Task, ids []int, res []taskResult) []int {
+	cmd := exec.Command(self, "worker")
+	cmd.Env = append(os.Environ(), "GOMEMLIMIT=3GiB")
+	stdin, _ := cmd.StdinPipe()
+	stdout, _ := cmd.StdoutPipe()
+	cmd.Stderr = nil
+	if err := cmd.Start(); err != nil {
+		for _, i := range ids {
+			res[i] = taskResult{Kind: "crash", Site: "worker-start:" + err.Error()}
+		}
+		return nil
+	}
+	go func() {
+		w := bufio.NewWriter(stdin)
+		for _, i := range ids {
+			t := tasks[i]
+			cfg := t.Cfg
+			if cfg == "" {
+				cfg = "-"
+			}
+			fmt.Fprintf(w, "%d %s %s %s\n", i, t.Oracle, cfg, hex.EncodeToString(t.Src))
+		}
+		w.Flush()
+		stdin.Close()
+	}()
+	sc := bufio.NewScanner(stdout)
+	sc.Buffer(make([]byte, 1<<20), 1<<28)
+	pos := 0 // index into ids of the task currently running / next expected
+	started := -1
+	lines := make(chan string, 64)
+	go func() {
+		for sc.Scan() {
+			lines <- sc.Text()
+		}
+		close(lines)
+	}()
+	kill := func() { cmd.Process.Kill(); cmd.Wait() }
+	for {
+		var to <-chan time.Time
+		if started >= 0 {
+			to = time.After(3*deadlineFor(len(tasks[started].Src)) + 5*time.Second)
+		} else {
+			to = time.After(60 * time.Second)
+		}
+		select {
+		case l, ok := <-lines:
+			if !ok {
+				cmd.Wait()
+				if started >= 0 {
+					res[started] = taskResult{Kind: "crash", Site: "worker-died"}
+					return ids[pos+1:]
+				}
+				if pos < len(ids) { // worker ended early without starting the next task
+					return ids[pos:]
+				}
+				return nil
+			}
+			var idx int
+			switch {
+			case strings.HasPrefix(l, "S "):
+				fmt.Sscanf(l, "S %d", &idx)
+				started = idx
+			case strings.HasPrefix(l, "D "):
+				sp := strings.SplitN(l, " ", 3)
+				fmt.Sscanf(sp[1], "%d", &idx)
+				var o Outcome
+				json.Unmarshal([]byte(sp[2]), &o)
+				res[idx] = taskResult{Out: o, Kind: "done"}
+				started = -1
+				pos++
+			case strings.HasPrefix(l, "H "):
+				sp := strings.SplitN(l, " ", 3)
+				fmt.Sscanf(sp[1], "%d", &idx)
+				site := ""
+				if len(sp) > 2 {
+					site = sp[2]
+				}
+				res[idx] = taskResult{Kind: "hang", Site: site}
+				kill()
+				return ids[pos+1:]
+			case strings.HasPrefix(l, "M "):
+				fmt.Sscanf(l, "M %d", &idx)
+				res[idx] = taskResult{Kind: "oom", Site: "memory>3GiB"}
+				kill()
+				return ids[pos+1:]
+			}
+		case <-to:
+			kill()
+			if started >= 0 {
+				res[started] = taskResult{Kind: "hang", Site: "worker-silent"}
+				return ids[pos+1:]
+			}
+			return ids[pos:]
+		}
+	}
+}
